@@ -99,6 +99,11 @@ type histOpts struct {
 	bigOffsets bool
 	colCases   []int // restrict column types (genColumnCase cases)
 	sameFormat bool  // every file has the same format and the files are numbered bin.00000N
+	// oddCols: two tables in five get a column count just above a multiple of 8 (9..12, 17).  With a partial image
+	// the presence bitmap then has more bytes than the rows' NULL bitmaps and unused bits in its last byte, so a
+	// decoder that lets the padding bits (Cfg.PadCols) leak into the count of present columns reads the NULL
+	// bitmap one byte too long.  Tables of up to 8 columns cannot show that.
+	oddCols bool
 }
 
 var allUnitKinds = []string{"txXid", "txCommit", "txRollback", "ddl", "autoRows", "stmtDml", "rotation", "restart", "ignorable", "unknownStmt", "setStmt", "emptyTx"}
@@ -111,6 +116,14 @@ func genHistory(r *vh.Rng, cfg Cfg, o histOpts) *history {
 		t := genTable(r, 1+r.Intn(o.maxCols), cfg)
 		if o.colCases != nil {
 			t = genTableOf(r, 1+r.Intn(o.maxCols), cfg, o.colCases)
+		}
+		if q := r.Side(); o.oddCols && q.Chance(2, 5) {
+			nc := q.Pick(9, 9, 10, 11, 12, 17)
+			if o.colCases != nil {
+				t = genTableOf(r, nc, cfg, o.colCases)
+			} else {
+				t = genTable(r, nc, cfg)
+			}
 		}
 		t.db, t.name = fmt.Sprintf("db%d", i%2), fmt.Sprintf("tab%d", i)
 		t.id = uint64(100 + i)
@@ -301,7 +314,7 @@ func genHistory(r *vh.Rng, cfg Cfg, o histOpts) *history {
 			if !o.sameFormat {
 				// ... and may have another format (SET GLOBAL binlog_checksum rotates the log; an upgraded master restarts)
 				if r.Chance(1, 2) {
-					cfg = baseCfgs[r.Intn(len(baseCfgs))]
+					cfg = baseCfg(r, r.Intn(len(baseCfgs)))
 					if k == "rotation" || r.Bool() {
 						cfg.V2, cfg.Tid4, cfg.HLen, cfg.NSizes = oldCfg.V2, oldCfg.Tid4, oldCfg.HLen, oldCfg.NSizes
 						cfg.CRC = !oldCfg.CRC
